@@ -4,6 +4,7 @@ use crate::gen::GenCfg;
 use proptest::prelude::*;
 
 pub mod chan;
+pub mod timed;
 
 pub struct Family {
     pub name: &'static str,
@@ -13,7 +14,10 @@ pub struct Family {
     pub run: fn(&Case) -> Outcome,
 }
 
-pub const FAMILIES: &[Family] = &[Family { name: "chan", runtime: true, max_steps: 300_000, run: chan::run }];
+pub const FAMILIES: &[Family] = &[
+    Family { name: "chan", runtime: true, max_steps: 300_000, run: chan::run },
+    Family { name: "timed", runtime: true, max_steps: 300_000, run: timed::run },
+];
 
 pub fn lookup(name: &str) -> Option<&'static Family> {
     FAMILIES.iter().find(|f| f.name == name)
@@ -43,6 +47,13 @@ fn chan_c07(g: &GenCfg) -> BoxedStrategy<Case> {
 }
 
 pub const PROPS: &[Prop] = &[
+    Prop {
+        id: "C08",
+        quick: 6000,
+        thorough: 300_000,
+        rule: "timed family: 1-5 actors (thread/coroutine), each one timed call out of sleep, mpsc/mpmc recv_timeout, Semphore/SyncFlag/Condvar wait_timeout, cqueue poll(Some(d)), Blocker::park(Some(d)), coroutine::park_timeout; duration from {0, sub-ms, fractional ms, whole ms, seconds, hours}; an event actor issues the awaited event never / before the call / in [0,2d] / within a few us of the deadline; generated schedule, 1/3 of the cases with stall faults. Non-trivial = >= 2 timers with different intervals pending, or an event within 1 ms of the deadline, or a timer removed early (event won), or a stall fault with a pre-emption. Distinct = distinct hash of (program, config, schedule).",
+        units: &[Unit { fam: "timed", label: "timed", share: 1, strategy: timed::strategy }],
+    },
     Prop {
         id: "C06",
         quick: 6000,
